@@ -23,6 +23,8 @@ DIMS_THOROUGH = DIMS_QUICK + [
     {'l': 0, 'q': [4], 's': []}, {'l': 1, 'q': [], 's': [3, 2]},
 ]
 
+DBL_MAX = 1.7976931348623157e308
+
 def N_of(dims, mnl=0):
     return mnl + dims['l'] + sum(dims['q']) + sum(k*k for k in dims['s'])
 def Ndiag_of(dims, mnl=0):
@@ -62,6 +64,7 @@ def configs(tier):
             for n in (1, 2):
                 out.append({'kernel': 'sgemv', 'dims': d, 'trans': trans, 'n': n, 'sparse': False})
             out.append({'kernel': 'sgemv', 'dims': d, 'trans': trans, 'n': 2, 'sparse': True})
+            out.append({'kernel': 'sgemv', 'dims': d, 'trans': trans, 'n': 2, 'sparse': False, 'offsetx': 2, 'offsety': 1})
         for off in (0, 1):
             out.append({'kernel': 'trisc', 'dims': d, 'offset': off})
             out.append({'kernel': 'triusc', 'dims': d, 'offset': off})
@@ -76,7 +79,16 @@ def configs(tier):
         out.append({'kernel': 'jdot', 'n': n, 'offsetx': 0, 'offsety': 0, 'default_n': True})
         for off in (0, 1):
             out.append({'kernel': 'jnrm2', 'n': n, 'offset': off, 'default_n': (off == 0)})
-    return out
+    # every configuration twice: the pure-Python kernels of misc.py, and misc.py with use_C = True on top of the compiled
+    # kernels of misc_solvers.c executed from their LLVM IR (vp/llsym/scen_misc.py); jdot/jnrm2/sdot2 exist in Python only
+    both = []
+    for c in out:
+        both.append(dict(c, impl='py'))
+        if c['kernel'] in ('jdot', 'jnrm2', 'sdot2'): continue
+        if tier == 'quick' and c['kernel'] == 'scale2' and c['dims']['q'] == [2, 3] and c['mnl'] == 0 and c['inverse'] == 'I':
+            continue      # compiled scale2, two 'q' blocks (2, 3), inverse: the hyperbolic identity takes z3 3 minutes (erratic) - thorough tier only
+        both.append(dict(c, impl='c'))
+    return both
 
 # ------------------------------------------------------------------------------------
 # One case, written once for both worlds.  `mk(name)` gives a world number (SymReal/float),
@@ -242,18 +254,20 @@ def run_case(cfg, Wd, A, mk, assume):
         Gv = vec('G', N*n)
         alpha, beta = mk('alpha'), mk('beta')
         lx, ly = (n, N) if tr == 'N' else (N, n)
-        xv, yv = vec('x', lx), vec('y', ly)
+        ox, oy = cfg.get('offsetx', 0), cfg.get('offsety', 0)
+        xv, yv = vec('x', ox + lx + (1 if ox else 0)), vec('y', oy + ly + (1 if oy else 0))
         G = M(Gv, (N, n))
         if cfg['sparse']:
             G = Wd.base.sparse(G) if Wd.mode == 'conc' else Wd.spmatrix._from_dense(G)
         x, y = M(xv), M(yv)
-        exp = O.sgemv(A, [num(e) for e in Gv], n, [num(e) for e in xv], [num(e) for e in yv], dims, tr, num(alpha), num(beta))
-        misc.sgemv(G, x, y, dims, trans=tr, alpha=alpha, beta=beta)
-        compare('y', cells(y), yv, {i: exp[i] for i in range(ly)})
+        exp = O.sgemv(A, [num(e) for e in Gv], n, [num(e) for e in xv[ox:ox + lx]], [num(e) for e in yv[oy:oy + ly]], dims, tr, num(alpha), num(beta))
+        if ox or oy: misc.sgemv(G, x, y, dims, trans=tr, alpha=alpha, beta=beta, offsetx=ox, offsety=oy)
+        else: misc.sgemv(G, x, y, dims, trans=tr, alpha=alpha, beta=beta)
+        compare('y', cells(y), yv, {oy + i: exp[i] for i in range(ly)})
         # trans='T': x is an element of S in 'L' storage; the kernel temporarily rescales the
         # lower triangles (must be restored exactly) and zeroes the unreferenced strict upper
         # triangles of x's 's' blocks (inside the addressed block, no defined content).
-        compare('x', cells(x), xv, {}, O.scale_frame(dims, 0, 1) if tr == 'T' else ())
+        compare('x', cells(x), xv, {}, set(ox + i for i in O.scale_frame(dims, 0, 1)) if tr == 'T' else ())
 
     elif k in ('trisc', 'triusc'):
         dims, off = cfg['dims'], cfg['offset']
@@ -323,6 +337,8 @@ def run_case(cfg, Wd, A, mk, assume):
         dims, mnl = cfg['dims'], cfg['mnl']
         N = O.layout(dims, mnl)[3]
         xv = vec('x', N)
+        for e in xv:       # finite doubles (the compiled kernel starts its running maximum at -DBL_MAX)
+            assume(A.le(num(e), A.const(DBL_MAX))); assume(A.ge(num(e), A.const(-DBL_MAX)))
         x = M(xv)
         t = misc.max_step(x, dims, mnl)
         exp = O.max_step(A, [num(e) for e in xv], dims, mnl)
@@ -334,19 +350,22 @@ def run_case(cfg, Wd, A, mk, assume):
 
 # ------------------------------------------------------------------------------------ symbolic job
 
-_WORLD = None
-def _world():
-    global _WORLD
-    if _WORLD is None:
+_WORLD = {}
+def _world(impl='py'):
+    if impl not in _WORLD:
         from vp.pysym import loader
-        _WORLD = loader.load('sym', modules=('misc',))
-    return _WORLD
+        _WORLD[impl] = loader.load('sym', modules=('misc',), use_c=('ir' if impl == 'c' else None))
+    # the two worlds share sys.modules['cvxopt.*']: re-install the one asked for
+    import sys
+    W = _WORLD[impl]
+    sys.modules['cvxopt.misc'] = W.misc
+    return W
 
 def job(cfg):
     """Symbolic job for one configuration: explores the kernel, proves every obligation."""
     import z3
     from vp.pysym import sym, prove, alg
-    Wd = _world()
+    Wd = _world(cfg.get('impl', 'py'))
     tmo = int(cfg.get('_timeout_ms', 10000))
     res = {'paths': 0, 'obl': {'total': 0, 'unsat': 0, 'sat': 0, 'unknown': 0}, 'solver_s': 0.0,
            'sat': [], 'unknown': [], 'errors': [], 'reach': 0, 'sample': None, 'relax_q': 0}
@@ -433,6 +452,13 @@ def main(tier):
     cfgs = configs(tier)
     for c in cfgs: c['_timeout_ms'] = 10000 if tier == 'quick' else 60000
     results = common.run_jobs('vp.checks.c08', 'job', cfgs)
+    # configurations with an undecided obligation (nonlinear identities of the 'q' blocks are decided erratically, in particular
+    # when the machine is loaded) are re-run once, a few at a time, with a 12-fold budget; what stays undecided is reported
+    again = [i for i, r in enumerate(results) if r['ok'] and r['res']['unknown'] and not r['res']['sat']]
+    if again:
+        cf2 = [dict(cfgs[i], _timeout_ms=12*cfgs[i]['_timeout_ms']) for i in again]
+        for i, r2 in zip(again, common.run_jobs('vp.checks.c08', 'job', cf2, workers=4)):
+            if r2['ok']: results[i] = r2
     known = common.known_findings('C08')
     violations, known_hits, herr, inconc = [], [], [], []
     paths = reach = 0
@@ -451,7 +477,7 @@ def main(tier):
         if res['reach'] == 0 and not res['sat']: herr.append('%s: assertion point never reached (vacuous)' % json.dumps(cfg))
         kernels_done.add(cfg['kernel'])
         for s in res['sat']:
-            key = 'py:%s:%s' % (cfg['kernel'], s['label'].split('[')[0])
+            key = '%s:%s:%s' % (cfg.get('impl', 'py'), cfg['kernel'], s['label'].split('[')[0])
             if key in seen_keys:
                 seen_keys[key] += 1; continue
             seen_keys[key] = 1
@@ -467,11 +493,13 @@ def main(tier):
     ev.extra['sat_by_key'] = seen_keys
     ev.cov.update({'programs': len(cfgs), 'disagreements_checked': ev.obl['sat'],
                    'states': paths, 'transitions': ev.obl['total'],
-                   'kernels': sorted(kernels_done), 'implementations': ['misc.py fallbacks (use_C=False), symbolic'],
+                   'kernels': sorted(kernels_done), 'implementations': ['misc.py fallbacks (use_C=False), symbolic (engine P)', 'misc_solvers.c kernels from LLVM IR on the same symbolic cells, below misc.py with use_C=True (engine L inside engine P)'],
+                   'c_kernels_encoded': ['scale', 'scale2', 'pack', 'pack2', 'unpack', 'symm', 'trisc', 'triusc', 'sdot', 'sprod', 'sinv', 'max_step (without sigma)'],
                    'paths_reaching_assertions': reach,
                    'source_hash': loader.src_hash(['misc']),
                    'bounds': 'dims box of %d cone structures (orders: l<=2, q dims<=3(4), s orders<=2(3)), mnl in {0,1}, 1-2 columns, offsets in {0,1,2}; all data symbolic reals; exact real arithmetic (sqrt(2) an algebraic symbol)' % len(DIMS_QUICK if tier == 'quick' else DIMS_THOROUGH)})
     ev.assumptions += ['floats modelled as reals (no rounding claim)', 'blas/base shim = reference model validated against the real build',
+                       'compiled kernels: every integer is concrete per configuration; CPython API, calloc and the BLAS/LAPACK routines called by misc_solvers.c are reference-semantics stubs (vp/llsym/scen_misc.py); every access is checked against the extent of its buffer; max_step: finite doubles, eigenvalues in closed form for orders <= 2, the sigma (eigenvector) variant is not encoded',
                        'scale: W[beta] > 0; scale2/sinv/jnrm2: argument strictly inside the cone',
                        "'s' blocks: only lower triangles compared; strict upper triangles of addressed 's' blocks may change"]
     return common.finish(ev, violations, known_hits, herr, inconc)
